@@ -62,7 +62,13 @@ def build(vacuity=False, unit='core'):
     spec = ''.join('//@@SPECFILE %s\n' % os.path.relpath(p, ROOT) + open(p).read() + '\n'
                    for p in sorted(glob.glob(os.path.join(ROOT, 'spec', '*.rs'))))
     src = ex.text.replace('//@SPEC-MODULES@', spec)
-    vspecs = [(os.path.relpath(p, ROOT), open(p).read()) for p in sorted(glob.glob(os.path.join(ROOT, 'contracts', '*.vspec')))]
+    import gen_patterns as G
+    try:
+        pat_vspec, _ = G.vspec(open(os.path.join(ROOT, 'spec', 'noise_patterns.txt')).read())
+    except G.PatternFileError as e:
+        raise Undecided('spec/noise_patterns.txt: %s' % e)
+    vspecs = [('spec/noise_patterns.txt(generated)', pat_vspec)]
+    vspecs += [(os.path.relpath(p, ROOT), open(p).read()) for p in sorted(glob.glob(os.path.join(ROOT, 'contracts', '*.vspec')))]
     woven, info = W.weave(src, vspecs, vacuity=vacuity)
     os.makedirs(BUILD, exist_ok=True)
     path = os.path.join(BUILD, 'snow_verus%s.rs' % ('_vacuity' if vacuity else ''))
